@@ -315,6 +315,15 @@ func c12Judge(env *hx.Env, m c12Meta, rec *hx.Recorder) (hx.Verdict, int) {
 			if err := os.WriteFile(setupAbs, []byte(m.Setups[st.Arg%len(m.Setups)]), 0o644); err != nil {
 				return hx.Failf("harness|io", "%v", err), judged
 			}
+		case "dep":
+			// a file of an IMPORTED package changes (the setup file's directory and go.mod stay as they are): ext.Inner2 gains
+			// or loses the getter that ":getter" matches in ConvertFromDependency
+			depAbs := filepath.Join(root, "ext", "setup.gen.go")
+			if st.Arg == 0 {
+				_ = os.WriteFile(depAbs, []byte("package ext\n\n// (the getter Extra is gone)\n"), 0o644)
+			} else {
+				_ = os.WriteFile(depAbs, []byte(c12DepNamedLikeOutput), 0o644)
+			}
 		case "delete":
 			_ = os.Remove(outAbs)
 		case "truncate":
@@ -539,6 +548,8 @@ func TestC12(t *testing.T) {
 			case k < 95:
 				// something appended to the good output (left-over of a longer earlier result)
 				m.Steps = append(m.Steps, c12Step{Op: "append", Text: rapid.SampledFrom([]string{"\nfunc leftOver() int { return 1 }\n", "// trailing junk", "\n\n", "}", "\nfunc ConvertAToB(src *A) (dst *B) {\n\treturn nil\n}\n"}).Draw(rt, "appended")}, c12Step{Op: "run"})
+			case k < 97:
+				m.Steps = append(m.Steps, c12Step{Op: "dep", Arg: rapid.IntRange(0, 1).Draw(rt, "depHasGetter")}, c12Step{Op: "run"})
 			default:
 				m.Steps = append(m.Steps, c12Step{Op: "delete"})
 			}
@@ -570,7 +581,7 @@ func TestC12(t *testing.T) {
 		nontrivial := false
 		for _, s := range m.Steps {
 			ops = append(ops, s.Op)
-			if s.Op == "truncate" || s.Op == "stale" || s.Op == "break" || s.Op == "append" || s.Op == "reencode" {
+			if s.Op == "truncate" || s.Op == "stale" || s.Op == "break" || s.Op == "append" || s.Op == "reencode" || s.Op == "dep" {
 				nontrivial = true
 			}
 		}
